@@ -124,6 +124,7 @@ type task struct {
 	MaxViol  int    `json:"v"`
 	MaxExecs int64  `json:"m"`
 	Iterate  bool   `json:"i"` // explore bounds 0..Bound in turn, stop at the first bound with a violation
+	NoClass  bool   `json:"nc"` // do not classify violations (no traced replays): race-only runs
 }
 
 type Violation struct {
@@ -304,7 +305,7 @@ func runShard(t *task) *Stats {
 			return
 		}
 		st.ViolExecs++
-		if len(st.Violations) >= maxViol {
+		if len(st.Violations) >= maxViol || t.NoClass {
 			return
 		}
 		// classify: replay with tracing to learn the deviation sites
@@ -511,6 +512,10 @@ func ExploreScenario(p *Pool, name, params string, bound int, deadline time.Time
 	}
 	rp := &vrt.Explorer{}
 	for _, r := range rootViol {
+		if RacesOnly {
+			total.ViolExecs++
+			continue
+		}
 		tr := rp.Replay(r.Choices, sc.Body)
 		v := &Violation{Choices: r.Choices, Verdict: r.Verdict, Outcome: r.Outcome, Kind: sc.kind(r.Verdict), Count: 1}
 		sc.sites(v, tr)
@@ -538,7 +543,7 @@ func ExploreScenario(p *Pool, name, params string, bound int, deadline time.Time
 		go func(pf []int) {
 			defer wg.Done()
 			defer func() { <-sem }()
-			st := p.run(&task{Scenario: name, Params: params, Bound: bound, Prefix: pf, Deadline: deadline.UnixNano()})
+			st := p.run(&task{Scenario: name, Params: params, Bound: bound, Prefix: pf, Deadline: deadline.UnixNano(), NoClass: RacesOnly})
 			mu.Lock()
 			defer mu.Unlock()
 			if st.Err != "" {
@@ -597,10 +602,10 @@ func ReplayRace(r *hk.Replay) int {
 	sc := lookup(r.Scenario, r.Params)
 	sc.apply()
 	before := vrt.RaceErrors()
-	res := (&vrt.Explorer{}).Replay(r.Choices, sc.Body)
-	for _, l := range res.Trace {
-		fmt.Println(l)
-	}
+	// no tracing here: the trace machinery shares label strings between threads through the
+	// (instrumented) standard library, which the detector would report
+	res := (&vrt.Explorer{}).RunOnce(r.Choices, false, sc.Body)
+	fmt.Printf("verdict: %q outcome: %q\n", res.Verdict, res.Outcome)
 	n := vrt.RaceErrors() - before
 	fmt.Printf("race reports in this execution: %d (race detector build: %v)\n", n, vrt.RaceEnabled)
 	if n > 0 {
